@@ -1,10 +1,133 @@
-import Martian.Util
-/-! STUB — property C12 is not built yet. -/
+import Martian.Model.Config
+/-!
+Driver for C12. Ops:
+  `post <tree>`                 → `ok <hasReq> <hasRes>` | `rej <unknown-modifier|invalid-scope|malformed>`
+  `run <q|s> <msgspec> <true atoms>` → `t=<labels> e=<-|E<l>|M<l,…>>`
+Tree tokens (prefix form):
+  `L <label> <caps b|q|s|z> <failReq> <failRes> <scope>` | `U<variant>` | `X<variant>`
+  `F <scope> <agg> <n> child*n` | `P <scope> <n> (<prio> child)*n` | `C <cond> <scope> <hasElse> then [else]`
+  scope: `n` (absent/null) | `e` (`[]`) | string over q (request) s (response) x (anything else)
+-/
 namespace Martian.Drv.C12
-open Martian
+open Martian Martian.Config
 
-abbrev St := Unit
-def init : St := ()
-def step (s : St) (_toks : List String) : St × String := (s, "bad-op")
+def parseScope (s : String) : Option Scope :=
+  if s = "n" || s = "N" then some none
+  else if s = "e" then some (some [])
+  else (s.toList.mapM fun c =>
+    if c = 'q' then some Tok.request else if c = 's' then some Tok.response
+    else if c = 'x' then some Tok.other else none).map some
+
+def parseBool (s : String) : Option Bool :=
+  if s = "0" then some false else if s = "1" then some true else none
+
+def parseCaps (s : String) : Option Caps :=
+  if s = "b" then some ⟨true, true⟩ else if s = "q" then some ⟨true, false⟩
+  else if s = "s" then some ⟨false, true⟩ else if s = "z" then some ⟨false, false⟩ else none
+
+def parseInt (s : String) : Option Int :=
+  if s.startsWith "-" then (s.drop 1).toNat?.map (fun n => -(n : Int)) else s.toNat?.map (fun n => (n : Int))
+
+mutual
+def parseNode : Nat → List String → Option (Node × List String)
+  | 0, _ => none
+  | fuel + 1, toks =>
+    match toks with
+    | "L" :: l :: c :: fq :: fs :: sc :: rest =>
+      match l.toNat?, parseCaps c, parseBool fq, parseBool fs, parseScope sc with
+      | some l, some c, some fq, some fs, some sc => some (.leaf l c fq fs sc, rest)
+      | _, _, _, _, _ => none
+    | "F" :: sc :: agg :: n :: rest =>
+      match parseScope sc, parseBool agg, n.toNat? with
+      | some sc, some agg, some n =>
+        match parseNodes fuel n rest with
+        | some (cs, rest) => some (.fifo sc agg cs, rest)
+        | none => none
+      | _, _, _ => none
+    | "P" :: sc :: n :: rest =>
+      match parseScope sc, n.toNat? with
+      | some sc, some n =>
+        match parsePNodes fuel n rest with
+        | some (cs, rest) => some (.prio sc cs, rest)
+        | none => none
+      | _, _ => none
+    | "C" :: c :: sc :: he :: rest =>
+      match c.toNat?, parseScope sc, parseBool he with
+      | some c, some sc, some he =>
+        match parseNode fuel rest with
+        | some (t, rest) =>
+          if he then
+            match parseNode fuel rest with
+            | some (e, rest) => some (.filter c sc t (some e), rest)
+            | none => none
+          else some (.filter c sc t none, rest)
+        | none => none
+      | _, _, _ => none
+    | t :: rest =>
+      if t.startsWith "U" then some (.unknown, rest)
+      else if t.startsWith "X" then some (.malformed, rest)
+      else none
+    | [] => none
+def parseNodes : Nat → Nat → List String → Option (List Node × List String)
+  | 0, _, _ => none
+  | _ + 1, 0, toks => some ([], toks)
+  | fuel + 1, n + 1, toks =>
+    match parseNode fuel toks with
+    | some (c, rest) =>
+      match parseNodes fuel n rest with
+      | some (cs, rest) => some (c :: cs, rest)
+      | none => none
+    | none => none
+def parsePNodes : Nat → Nat → List String → Option (List (Int × Node) × List String)
+  | 0, _, _ => none
+  | _ + 1, 0, toks => some ([], toks)
+  | fuel + 1, n + 1, toks =>
+    match toks with
+    | p :: toks =>
+      match parseInt p, parseNode fuel toks with
+      | some p, some (c, rest) =>
+        match parsePNodes fuel n rest with
+        | some (cs, rest) => some ((p, c) :: cs, rest)
+        | none => none
+      | _, _ => none
+    | [] => none
+end
+
+def parseTree (toks : List String) : Option Node :=
+  match parseNode (2 * toks.length + 2) toks with
+  | some (n, []) => some n
+  | _ => none
+
+def showPErr : PErr → String
+  | .unknownModifier => "unknown-modifier"
+  | .invalidScope => "invalid-scope"
+  | .malformed => "malformed"
+
+def showErr : Err → String
+  | .none => "-"
+  | .single l => s!"E{l}"
+  | .multi ls => "M" ++ ",".intercalate (ls.map toString)
+
+def showOutcome (o : Outcome) : String := s!"t={showNatList o.1} e={showErr o.2}"
+
+def b01 (b : Bool) : String := if b then "1" else "0"
+
+abbrev St := Active
+def init : St := Active.init
+
+def step (s : St) (toks : List String) : St × String :=
+  match toks with
+  | "post" :: tree =>
+    match parseTree tree with
+    | none => (s, "bad-op")
+    | some n =>
+      match servePOST s n with
+      | (s', .ok ()) => (s', s!"ok {b01 s'.req.isSome} {b01 s'.res.isSome}")
+      | (s', .error e) => (s', s!"rej {showPErr e}")
+  | ["run", k, _msg, atoms] =>
+    match (if k = "q" then some Kind.req else if k = "s" then some Kind.res else none), natList atoms with
+    | some k, some tr => (s, showOutcome (run s k (fun _ a => tr.contains a)))
+    | _, _ => (s, "bad-op")
+  | _ => (s, "bad-op")
 
 end Martian.Drv.C12
